@@ -47,6 +47,9 @@ type c01URI struct {
 
 func c01URIs(rng *lab.Rand) []c01URI {
 	long := "/c01/" + strings.Repeat("seg/", 400) + "end" // MOSN's HTTP/1 server reads request line + header fields into 4 KiB
+	if os.Getenv("VERIF_C01_LONG") != "" {
+		long = "/" + strings.Repeat("seg/", 1500) + "end"
+	}
 	l := []c01URI{
 		{"plain", "/c01/plain"},
 		{"escaped-slash", "/c01/a%2Fb"},
